@@ -226,6 +226,14 @@ def body(a, ck, rp):
         ck.cov["cfgs"][-1]["cases_replayed"] = len(cases)
         obs = rp.run(cases)
         rp.judge(cases, obs, cfg, "pkglist", "flat")
+        # the same images with "./"-spelled entry names, and (aligned history only) with byte-identical layers
+        # wherever two layers do the same (equal diff ids at different positions, e.g. a repeated COPY)
+        obs = rp.run(cases, layout="flat,dotslash")
+        rp.judge(cases, obs, cfg, "pkglist", "flat,dotslash")
+        aligned = [c for c in cases if c["history"] == "match"]
+        if aligned:
+            obs = rp.run(aligned, layout="flat,sameid")
+            rp.judge(aligned, obs, cfg, "pkglist", "flat,sameid")
         pool += cases
         for c in cases[:: max(1, len(cases) // 2)][:2]:
             if c.get("nontrivial"):
